@@ -227,11 +227,12 @@ Proof.
   - vm_compute. reflexivity.
 Qed.
 
-(* ---- the statement language over globals: blocks, if, if/else, while ---- *)
-(* Sem.eval computes the fuelled meaning of a statement: same fuel, same globals, same value or error *)
-Theorem C01_sem_statement : forall n t, wstmt t = true -> forall env st G' r,
-  ssem n (s_globals st) t = Some (G', r) ->
-  eval n t env st = Done (with_globals st G') (ctl_of r).
+(* ---- the statement language over globals: blocks, if, if/else, while, write ---- *)
+(* a statement acts on a world: the global bindings, the output written so far, the input still unread.
+   Sem.eval computes the fuelled meaning of a statement: same fuel, same world, same value or error *)
+Theorem C01_sem_statement : forall n t, wstmt t = true -> forall env st W' r,
+  ssem n (wof_s st) t = Some (W', r) ->
+  eval n t env st = Done (with_world st W') (ctl_of r).
 Proof. exact eval_stmt. Qed.
 Print Assumptions C01_sem_statement.
 
@@ -245,7 +246,7 @@ Print Assumptions C01_statement_compiled.
 Theorem C01_statement_run : forall t s s' v c m n G' res,
   wstmt t = true -> wfcs s -> idle v s c m ->
   ByteCode t s = CompOk s' ->
-  ssem n (v_globals v) t = Some (G', res) ->
+  ssem n (wof v) t = Some (G', res) ->
   wfcs s' /\
   exists k, forall fuel,
     ((fuel <= k)%nat -> snd (Run fuel (load_code v s') true) = RFuel \/
@@ -256,18 +257,18 @@ Theorem C01_statement_run : forall t s s' v c m n G' res,
                         end) /\
     ((k < fuel)%nat ->
      match res with
-     | Ok x => ran_to_value v c m s' G' x (Run fuel (load_code v s') true)
+     | Ok x => ran_to_value_w v c m s' G' x (Run fuel (load_code v s') true)
      | Fail err => exists me rep, Run fuel (load_code v s') true
                                   = (reset_after_error (SG (load_code v s') G' (c_mid c) me), RError err rep)
      end).
 Proof. exact bytecode_run_stmt. Qed.
 Print Assumptions C01_statement_run.
 
-(* file mode: ByteCodeNoStck, Run(false): same globals, nothing left on the stack *)
+(* file mode: ByteCodeNoStck, Run(false): same world (globals, output, input), nothing left on the stack *)
 Theorem C01_statement_run_file_mode : forall t s s' v c m n G' res,
   wstmt t = true -> wfcs s -> idle v s c m ->
   ByteCodeNoStck t s = CompOk s' ->
-  ssem n (v_globals v) t = Some (G', res) ->
+  ssem n (wof v) t = Some (G', res) ->
   wfcs s' /\
   exists k, forall fuel, (k < fuel)%nat ->
     match res with
@@ -281,7 +282,7 @@ Print Assumptions C01_statement_run_file_mode.
 (* every history of such statements *)
 Theorem C01_statement_sessions_partial : forall ts mc c m,
   ready mc c m -> Forall (fun t => wstmt t = true /\ CompileWf.wfb t = true) ts ->
-  sess mc (v_globals (mc_vm mc)) ts.
+  sess mc (wof (mc_vm mc)) ts.
 Proof. exact stmt_session. Qed.
 Print Assumptions C01_statement_sessions_partial.
 
@@ -310,6 +311,32 @@ Example C01_demo_statements_are_covered :
 Proof.
   split; [|vm_compute; reflexivity].
   unfold demo_statements. repeat constructor.
+Qed.
+
+(* output: a loop that writes; the compiled run leaves exactly the lines the semantics writes, in order
+   (the model keeps the newest chunk first) *)
+Fixpoint end_of (mc : machine) (ts : list node) : machine :=
+  match ts with
+  | [] => mc
+  | t :: r => end_of (fst (run_tree false mc t)) r
+  end.
+
+Definition demo_output : list node :=
+  [NAssign (NName "i") (NInt 0);
+   NWhile (NBin "<" (NName "i") (NInt 3))
+          (NBlock [NWrite (NBin "*" (NName "i") (NName "i"));
+                   NAssign (NName "i") (NBin "+" (NName "i") (NInt 1))]);
+   NWrite (NList [NName "i"; NStr "done"]);
+   NBlock [NWrite (NStr "before"); NWrite (NBin "/" (NInt 1) (NInt 0)); NWrite (NStr "never")]].
+
+Example C01_demo_output_is_covered :
+  Forall (fun t => wstmt t = true /\ CompileWf.wfb t = true) demo_output /\
+  map brief (run_all mc_after_first demo_output) =
+  [Some (Ok (VInt 0)); Some (Ok (VInt 3)); Some (Ok VNil); Some (Fail ErrZeroDiv)] /\
+  firstn 5 (v_out (mc_vm (end_of mc_after_first demo_output))) =
+  ["before"; "[3, done]"; "4"; "1"; "0"]%string.
+Proof.
+  split; [unfold demo_output; repeat constructor|]. split; vm_compute; reflexivity.
 Qed.
 
 (* ---- proved: the oracle follows the language rules ---- *)
